@@ -92,6 +92,9 @@ def frozen(*arrs):
 
 
 # ----------------------------------------------------------------------------- MVDR
+_RCOUNT = [0]
+
+
 def make_mvdr(rng, tier, idx):
     big = tier == 'thorough'
     D = int(rng.integers(2, 9))
@@ -111,6 +114,10 @@ def make_mvdr(rng, tier, idx):
     else:
         a = crandn(rng, int(rng.integers(1, 3)), K, F, D)
     a = a * 10.0 ** rng.integers(-2, 3)
+    _RCOUNT[0] += 1
+    if _RCOUNT[0] % 4 == 0:
+        # a real-valued look direction handed over as a REAL array (e.g. np.ones(D): broadside / delay-compensated steering)
+        a = np.ascontiguousarray(a.real) if _RCOUNT[0] % 8 == 0 else np.ones(a.shape)
     rp = {'fn': 'mvdr', 'a': a, 'Pn': Pn, 'layout': layout, 'probe_seed': int(rng.integers(1 << 30))}
     fail, key, coq, raised = eval_mvdr(rp, rng)
     name = 'mvdr %s a%s Pn%s' % (layout, a.shape, Pn.shape)
@@ -176,6 +183,10 @@ def eval_mvdr(rp, rng=None):
                 return 'single-bin call raised %s' % type(e).__name__, 'mvdr:raises:single:%s' % type(e).__name__, None, None
             if relerr(ws, wc[ix]) > 1e-9:
                 return 'stacked result differs from the per-bin result at %s' % (ix,), 'mvdr:stack', None, None
+    f = core.container_variants(lambda a_, p_: get_mvdr_vector(a_, p_), [a, Pn], w,
+                                lambda r, e: np.shape(r) == np.shape(e) and relerr(np.asarray(r), e) <= 1e-9 * (1 + np.linalg.cond(Sb).max() * 1e-4))
+    if f:
+        return 'get_mvdr_vector: ' + f, 'mvdr:container', None, None
     return None, None, _coq_mvdr(ac, Sb, wc, Pn, layout, rng), None
 
 
@@ -232,6 +243,10 @@ def eval_lcmv(rp, rng=None):
     G = np.einsum('kfd,Kfd->fkK', a.conj(), X)
     rc = np.repeat(r[None, :, None].astype(np.complex64), F, axis=0)
     t = np.squeeze(stable_solve(G, rc), -1)
+    fv = core.container_variants(lambda a_, p_: get_lcmv_vector(a_, list(r) if rp.get('as_list') else r, p_), [a, Pn], w,
+                                 lambda r_, e: np.shape(r_) == np.shape(e) and relerr(np.asarray(r_), e) <= 1e-6)
+    if fv:
+        return 'get_lcmv_vector: ' + fv, 'lcmv:container', None, None
     parts = []
     for f in pick_bins(rng, list(range(F))):
         parts.append('check_lcmv %d %d %s %s %s %s %s %s' % (
@@ -386,6 +401,10 @@ def eval_sw(rp, rng=None):
         ws = _call_sw(which, Px[ix][None], Pn[ix][None], rp, r)[0]
         if relerr(ws, w[ix]) > 1e-9:
             return 'stacked result differs from the per-bin result at %s' % (ix,), '%s:stack' % which, None, None
+    f = core.container_variants(lambda x_, n_: _call_sw(which, x_, n_, rp, r), [Px, Pn], w,
+                                lambda r_, e: np.shape(r_) == np.shape(e) and relerr(np.asarray(r_), e) <= 1e-7)
+    if f:
+        return '%s: %s' % (which, f), '%s:container' % which, None, None
     return None, None, _coq_sw(rp, Px, Pn, phi, eps, mu, r, w, rng, ref_coq), None
 
 
